@@ -10,7 +10,7 @@ def main():
         hists = json.load(f)
     out = []
     for h in hists[:1]:
-        out.append(scn_replay.replay_files(h))
+        out.append(scn_replay.replay_files(h, sys.argv[2] if len(sys.argv) > 2 else "split"))
     print("RESULT " + json.dumps(out, default=str))
 
 
